@@ -101,7 +101,11 @@ class Grid(col.MutableSequence):
                     return False
             return (v1 == v2) or (abs(v1 - v2) < 0.000001)
         else:
-            return v1 == v2
+            try:
+                return bool(v1 == v2)
+            except TypeError:
+                # e.g. lists or dicts holding Quantities of different units
+                return False
 
     def __eq__(self, other):
         if not isinstance(other, Grid):
